@@ -112,7 +112,7 @@ func C11(e *simkern.Env) {
 	tp := e.Tape
 	nOps := 1 + tp.Draw(3)
 	ops := pipew.GenOps(tp, pipew.GenCfg{MinOps: nOps, MaxOps: nOps, OnlyStream: true, FailBias: 4, InitFail: true,
-		Cancel: true, Cast: true, Levels: true, MaxTurns: 7, NonceBase: 11000, EmitMeta: true})
+		Cancel: true, Cast: true, Levels: true, MaxTurns: 7, NonceBase: 11000, EmitMeta: true, ZeroRows: true, AfterCancel: true})
 	for _, op := range ops {
 		if op.StreamKind == "producer" {
 			op.CancelAt = -1
@@ -158,22 +158,31 @@ func C11(e *simkern.Env) {
 		}
 		httpRes := make([]*pipew.OpResult, len(ops))
 		inFlight := 0
-		sim.Spawn("http-client", func() {
-			for i, op := range ops {
-				httpRes[i] = httpw.RunStream(op, httpw.StreamOpts{
-					Pick:          func() *httpw.Instance { return cl.Inst[tp.Draw(len(cl.Inst))] },
-					Header:        hdr,
-					BeforeRequest: func(string) { sim.Y("client.request"); inFlight++ },
-					OnResponse: func(kind string, inst *httpw.Instance, resp *hx.Resp, _ []byte) {
-						inFlight--
-						if resp.Header.Get("Content-Encoding") == "zstd" || resp.Header.Get("X-VGI-Content-Encoding") == "zstd" {
-							sim.Probe("compressed-response")
-						}
-						sim.Probe("http-" + kind)
-					},
-				})
-			}
-		})
+		// several streams may be alive at once on the same instances: the ops are
+		// dealt to 1-2 client tasks which the scheduler interleaves
+		nTasks := 1 + tp.Draw(2)
+		for c := 0; c < nTasks; c++ {
+			c := c
+			sim.Spawn(fmt.Sprintf("http-client%d", c), func() {
+				for i, op := range ops {
+					if i%nTasks != c {
+						continue
+					}
+					httpRes[i] = httpw.RunStream(op, httpw.StreamOpts{
+						Pick:          func() *httpw.Instance { return cl.Inst[tp.Draw(len(cl.Inst))] },
+						Header:        hdr,
+						BeforeRequest: func(string) { sim.Y("client.request"); inFlight++ },
+						OnResponse: func(kind string, inst *httpw.Instance, resp *hx.Resp, _ []byte) {
+							inFlight--
+							if resp.Header.Get("Content-Encoding") == "zstd" || resp.Header.Get("X-VGI-Content-Encoding") == "zstd" {
+								sim.Probe("compressed-response")
+							}
+							sim.Probe("http-" + kind)
+						},
+					})
+				}
+			})
+		}
 		r2, _ := sim.Run(simkern.RunOpts{MaxSteps: 80000, Done: sim.RootsDone, Extra: func() []simkern.Action {
 			if inFlight > 0 {
 				return nil
@@ -215,6 +224,15 @@ func C11(e *simkern.Env) {
 				if streamJudge(e, "http:", i, h, false) {
 					break
 				}
+				// the state saw inputs of the declared type on both transports
+				if ops[i].StreamKind == "exchange" && ops[i].Method != "dyn" {
+					for k, ty := range hx.Rec.Get(ops[i].Script.Nonce).InputTypes {
+						if ty != "int64" {
+							e.Violate("input-not-cast-to-declared-schema", site, "call %d over HTTP: exchange %d received a column of type %s, the declared input schema says int64", i, k, ty)
+							break
+						}
+					}
+				}
 			}
 		} else {
 			reason = r2
@@ -235,8 +253,8 @@ func init() {
 		Real:  []string{"vgirpc.Server.serveStream", "vgirpc.HttpServer stream init/exchange/producer continuation, state tokens, call-state cache, response compression"},
 		Stub:  []string{"transports", "load balancer", "protocol clients", "scripted states"},
 		Quick: 700, Thorough: 100000,
-		Warm:  warmHTTP,
-		FaultKinds: []string{"instance-restart", "read-fragmentation", "write-delay", "client-cancel"},
+		Warm:        warmHTTP,
+		FaultKinds:  []string{"instance-restart", "read-fragmentation", "write-delay", "client-cancel"},
 		Assumptions: []string{"producer cancel is exercised on exchanges only (a producer over HTTP can be cancelled only at response boundaries, which has no pipe equivalent at the same tick)", "comparison is semantic and ignores request-id echo, server id, tokens and the number of HTTP turns"},
 	}
 }
